@@ -17,7 +17,8 @@
 //! exploration twice and demanding identical counts (a harness that does not own its nondeterminism is a
 //! machinery error) and (b) a second Layer 1 exploration with an *order-sensitive* fingerprint whose states,
 //! projected to multisets, must be exactly the states of the multiset exploration of the same depth.
-use crate::explore::bfs_chunked;
+use crate::explore::{bfs_chunked, SideViolations};
+use std::cell::Cell;
 use mc_core::{BfsStats, Ctx, Level, Machine};
 use radix_common::prelude::*;
 use radix_engine::kernel::substate_locks::SubstateLocks;
@@ -160,8 +161,8 @@ pub struct St {
     real: SubstateLocks<u32>,
     model: Model,
     hist: Vec<Op>,
-    /// lock-availability bits of the last lookahead probe (see `probes`)
-    probe_bits: u16,
+    /// lock-availability bits of the lookahead probe of this state (see `probes`); None = not computed yet
+    probe_bits: Cell<Option<u16>>,
 }
 
 type V = (String, String);
@@ -334,12 +335,38 @@ fn probes(hist: &[Op]) -> Result<u16, V> {
 pub struct L1 {
     /// order-sensitive fingerprint (cross-check run) instead of the multiset one
     pub ordered: bool,
-    /// run the lookahead probes on every state-changing transition (oracle + fingerprint bits)
+    /// run the lookahead probes on every reached state (oracle + fingerprint bits)
     pub probes: bool,
+    /// violations found by the probes (they run inside `fingerprint`, once per reached state)
+    pub side: SideViolations,
+    /// ordered run only: the multiset projections of all states whose fingerprint was taken
+    pub projections: std::sync::Mutex<BTreeSet<Vec<(u8, u8)>>>,
+}
+
+impl L1 {
+    pub fn new(ordered: bool, probes: bool) -> L1 {
+        L1 { ordered, probes, side: SideViolations::default(), projections: Default::default() }
+    }
+    fn probe_bits(&self, st: &St) -> u16 {
+        if let Some(b) = st.probe_bits.get() {
+            return b;
+        }
+        let b = match probes(&st.hist) {
+            Ok(b) => b,
+            Err((k, w)) => {
+                let mut h: Vec<String> = st.hist.iter().map(|o| format!("{o:?}")).collect();
+                h.push("<look-ahead: trial lock of every substate in both modes, then close every open handle, then write-lock everything>".into());
+                self.side.add(k, w, h);
+                0xEEEE
+            }
+        };
+        st.probe_bits.set(Some(b));
+        b
+    }
 }
 
 fn new_st(real: SubstateLocks<u32>, model: Model, hist: Vec<Op>) -> St {
-    St { real, model, hist, probe_bits: 0xFFFF }
+    St { real, model, hist, probe_bits: Cell::new(None) }
 }
 
 impl Machine for L1 {
@@ -382,12 +409,22 @@ impl Machine for L1 {
         let class = apply(&mut st.real, &mut st.model, op)?;
         st.hist.push(*op);
         compare(&st.real, &st.model, "after-step")?;
-        // lookahead only after ops that were meant to change the state; after a dead-handle op the state is
-        // the one already probed (and `compare` above has just confirmed that nothing observable moved)
-        if self.probes && matches!(op, Op::Lock { .. } | Op::Unlock { .. }) {
-            st.probe_bits = probes(&st.hist)?;
+        // the lookahead of the predecessor stays valid after a dead-handle op (`compare` has just confirmed that
+        // nothing observable moved); after a lock / unlock it is recomputed when the fingerprint is taken
+        if matches!(op, Op::Lock { .. } | Op::Unlock { .. }) {
+            st.probe_bits.set(None);
         }
         Ok(class)
+    }
+
+    /// cheap copy = replay of the history without the per-step comparison (the history was already accepted)
+    fn fork(&self, st: &St) -> Option<St> {
+        let (real, model) = rebuild(&st.hist).ok()?;
+        let copy = new_st(real, model, st.hist.clone());
+        if self.probes {
+            copy.probe_bits.set(Some(self.probe_bits(st)));
+        }
+        Some(copy)
     }
 
     /// Canonical form of the real object's observable state:
@@ -409,6 +446,10 @@ impl Machine for L1 {
         }
         if !self.ordered {
             hs.sort();
+        } else {
+            let mut ms = hs.clone();
+            ms.sort();
+            self.projections.lock().unwrap().insert(ms);
         }
         let mut out = vec![];
         for (s, m) in hs {
@@ -430,46 +471,10 @@ impl Machine for L1 {
         }
         out.extend_from_slice(&bits.to_le_bytes());
         if self.probes {
-            out.extend_from_slice(&st.probe_bits.to_le_bytes());
+            out.extend_from_slice(&self.probe_bits(st).to_le_bytes());
         }
         out
     }
-}
-
-fn multiset_projection_count(m: &L1, max_depth: usize, threads: usize) -> u64 {
-    // independent enumeration of the ordered machine's reachable states, projected to multisets
-    // (plain recursive DFS over histories with its own visited set; no mc_core::bfs involved)
-    let _ = threads;
-    let mut seen_ord: BTreeSet<Vec<u8>> = BTreeSet::new();
-    let mut proj: BTreeSet<Vec<(u8, bool)>> = BTreeSet::new();
-    let mut frontier: Vec<Vec<Op>> = vec![vec![]];
-    let init = m.init();
-    seen_ord.insert(m.fingerprint(&init));
-    proj.insert(vec![]);
-    for _ in 0..max_depth {
-        let mut next = vec![];
-        for h in &frontier {
-            let (real, model) = rebuild(h).unwrap_or_else(|e| mc_core::machinery_error(&format!("projection replay: {e:?}")));
-            let st = new_st(real, model, h.clone());
-            for op in m.ops(&st, 0) {
-                let mut h2 = h.clone();
-                h2.push(op);
-                let (real, model) = match rebuild(&h2) {
-                    Ok(x) => x,
-                    Err(_) => continue, // violations are reported by the main exploration
-                };
-                let st2 = new_st(real, model, h2.clone());
-                if seen_ord.insert(m.fingerprint(&st2)) {
-                    let mut ms: Vec<(u8, bool)> = st2.model.live.iter().map(|x| (x.1, x.2)).collect();
-                    ms.sort();
-                    proj.insert(ms);
-                    next.push(h2);
-                }
-            }
-        }
-        frontier = next;
-    }
-    proj.len() as u64
 }
 
 // ------------------------------------------------------------------------------------------------
@@ -488,7 +493,7 @@ pub fn run(ctx: Ctx) -> ! {
     let (d2, cap2_s) = ctx.pick((5, 40.0), (7, 900.0));
 
     // determinism: the first layers twice, identical counts (replaces the stateright cross-check)
-    let m_plain = L1 { ordered: false, probes: true };
+    let m_plain = L1::new(false, true);
     let a = bfs_chunked(&ctx, &m_plain, "L1-determinism-a", 3, u64::MAX, 60.0, CHUNK);
     let b = bfs_chunked(&ctx, &m_plain, "L1-determinism-b", 3, u64::MAX, 60.0, 7);
     if a.states != b.states || a.transitions != b.transitions || a.per_depth_states != b.per_depth_states {
@@ -496,16 +501,19 @@ pub fn run(ctx: Ctx) -> ! {
     }
 
     // Layer 1, multiset fingerprint, lookahead probes as additional oracle
-    let m1 = L1 { ordered: false, probes: true };
+    let m1 = L1::new(false, true);
     let s1 = bfs_chunked(&ctx, &m1, "L1", d1, 20_000_000, if quick { 35.0 } else { 600.0 }, CHUNK);
+    m_plain.side.flush(&ctx, "L1");
+    m1.side.flush(&ctx, "L1");
     println!("C13 L1 depth {} states {} transitions {} capped {} per-depth {:?} ({:.1}s)", s1.depth_completed, s1.states, s1.transitions, s1.capped, s1.per_depth_states, ctx.elapsed_s());
 
     // Layer 1, order-sensitive fingerprint (cross-check of the symmetry argument)
-    let m_ord = L1 { ordered: true, probes: true };
+    let m_ord = L1::new(true, true);
     let s_ord = bfs_chunked(&ctx, &m_ord, "L1-ordered", d_ord, 20_000_000, if quick { 10.0 } else { 200.0 }, CHUNK);
-    let ms_ref = bfs_chunked(&ctx, &L1 { ordered: false, probes: false }, "L1-multiset-ref", d_ord, 20_000_000, 200.0, CHUNK);
+    m_ord.side.flush(&ctx, "L1-ordered");
+    let ms_ref = bfs_chunked(&ctx, &L1::new(false, false), "L1-multiset-ref", d_ord, 20_000_000, 200.0, CHUNK);
     if !s_ord.capped && !ms_ref.capped && !ctx.has_violations() {
-        let projected = multiset_projection_count(&L1 { ordered: true, probes: false }, d_ord, ctx.threads);
+        let projected = m_ord.projections.lock().unwrap().len() as u64;
         if projected != ms_ref.states {
             mc_core::machinery_error(&format!(
                 "C13: order-sensitive exploration to depth {d_ord} reaches {projected} multiset classes, multiset exploration {} states: the symmetry reduction is not justified",
@@ -603,12 +611,16 @@ fn replay(ctx: Ctx) -> ! {
     if base.starts_with("L2") {
         crate::c13_l2::replay(&ctx, &hist);
     } else {
-        let m = L1 { ordered: base.contains("ordered"), probes: true };
+        let m = L1::new(base.contains("ordered"), true);
         let mut st = m.init();
         for (i, s) in hist.iter().enumerate() {
+            if s.starts_with('<') {
+                println!("step {i}: {s} (executed on a copy after every step)");
+                continue;
+            }
             let op = parse_op(s).unwrap_or_else(|| mc_core::machinery_error(&format!("cannot parse op {s}")));
-            match mc_core::catch(|| m.step(&mut st, &op)) {
-                Ok(Ok(class)) => println!("step {i}: {op:?} -> {class}"),
+            match mc_core::catch(|| m.step(&mut st, &op).map(|c| (c, m.fingerprint(&st)))) {
+                Ok(Ok((class, _))) => println!("step {i}: {op:?} -> {class}"),
                 Ok(Err((k, w))) => {
                     println!("step {i}: {op:?} -> VIOLATION {k}: {w}");
                     ctx.violation(k, w, case.clone());
@@ -621,6 +633,7 @@ fn replay(ctx: Ctx) -> ! {
                 }
             }
         }
+        m.side.flush(&ctx, &base);
     }
     ctx.finish(Level::ModelChecking, "replay", 0, false, serde_json::Map::new(), &[])
 }
